@@ -189,6 +189,46 @@ type c12History struct {
 	snaps    map[int64][]flatKV
 	hashes   map[int64][]byte
 	retained map[int64]bool
+	// C13: hashes and contents of the whole uninterrupted history (a separate run on its own database), used to
+	// judge the blocks that follow a recovery
+	refHashes map[int64][]byte
+	refSnaps  map[int64][]flatKV
+}
+
+func (h *c12History) cloneUpTo() *c12History {
+	n := &c12History{snaps: map[int64][]flatKV{}, hashes: map[int64][]byte{}, retained: map[int64]bool{}, refHashes: h.refHashes, refSnaps: h.refSnaps}
+	for k, v := range h.snaps {
+		n.snaps[k] = v
+	}
+	for k, v := range h.hashes {
+		n.hashes[k] = v
+	}
+	for k, v := range h.retained {
+		n.retained[k] = v
+	}
+	return n
+}
+
+// referenceRun executes the whole history without interruption on a database of its own.
+func (s *c12Sys) referenceRun() (map[int64][]byte, map[int64][]flatKV, bool) {
+	db := newCrashDB()
+	rs := s.open(db)
+	if rs.LoadLatestVersion() != nil {
+		return nil, nil, false
+	}
+	model := make([]flatKV, s.p.NStores)
+	for i := range model {
+		model[i] = flatKV{}
+	}
+	hashes, snaps := map[int64][]byte{}, map[int64][]flatKV{}
+	for bi := range s.p.Blocks {
+		var cid stypes.CommitID
+		if catch(func() { s.apply(rs, &s.p.Blocks[bi], model); cid = rs.Commit() }).panicked {
+			return nil, nil, false
+		}
+		hashes[int64(bi+1)], snaps[int64(bi+1)] = cid.Hash, cloneModel(model)
+	}
+	return hashes, snaps, true
 }
 
 // retention rule as documented in C12's anchor: at commit V release V-1-keepRecent unless it is a
@@ -254,6 +294,11 @@ func execC12C13(p *c12Prog, c *Case, crashMode bool) *Violation {
 		model[i] = flatKV{}
 	}
 	h := &c12History{snaps: map[int64][]flatKV{}, hashes: map[int64][]byte{}, retained: map[int64]bool{}}
+	if crashMode {
+		if rh, rsn, ok := s.referenceRun(); ok {
+			h.refHashes, h.refSnaps = rh, rsn
+		}
+	}
 	c.Labelf("keepRecent=%d keepEvery=%d", p.KeepRecent, p.KeepEvery)
 	prunedSeen, retainedOld, reopenAfterDelete, deleted := false, false, false, false
 	replayed, replayedPruning := 0, false
@@ -560,8 +605,28 @@ func (s *c12Sys) enumerateCrashes(c *Case, durable *crashDB, b *c12Block, height
 				return inside2, afterPrune, violf("C13/replay-hash", "crash after %d/%d units of commit %d: replay gives (%d,%X), uninterrupted run (%d,%X)", k, W, height, cid.Version, cid.Hash, height, h.hashes[height])
 			}
 		}
+		// life goes on after the recovery: the next blocks (up to two) must commit to the hashes of the uninterrupted
+		// history, on top of whatever the interrupted commit left in the database
+		hk, last := h, height
+		if h.refHashes != nil && !(firstCommitPartial && knownSigs()[firstSig]) {
+			hk = h.cloneUpTo()
+			for j := height + 1; j <= height+2 && int(j) <= len(s.p.Blocks); j++ {
+				var cid stypes.CommitID
+				res := catch(func() { s.apply(rs2, &s.p.Blocks[j-1], nil); cid = rs2.Commit() })
+				if res.panicked {
+					return inside2, afterPrune, violf("C13/continuation-fails", "crash after %d/%d units of commit %d, recovered; committing block %d afterwards panics: %v", k, W, height, j, res.pv)
+				}
+				if cid.Version != j || !bytes.Equal(cid.Hash, h.refHashes[j]) {
+					return inside2, afterPrune, violf("C13/continuation-hash", "crash after %d/%d units of commit %d, recovered; block %d afterwards commits to (%d,%X), the uninterrupted history to (%d,%X)", k, W, height, j, cid.Version, cid.Hash, j, h.refHashes[j])
+				}
+				hk.snaps[j], hk.hashes[j] = h.refSnaps[j], h.refHashes[j]
+				hk.commit(j, s.p)
+				last = j
+				c.Label("blocks-committed-after-recovery")
+			}
+		}
 		// afterwards every retained version is still readable and pruned ones are not
-		if v := s.checkVersions(dbk, h, height, fmt.Sprintf("after crash %d/%d of commit %d and replay", k, W, height)); v != nil {
+		if v := s.checkVersions(dbk, hk, last, fmt.Sprintf("after crash %d/%d of commit %d, replay and %d more block(s)", k, W, height, last-height)); v != nil {
 			v.Sig = strings.Replace(v.Sig, "C12/", "C13/after-replay/", 1)
 			return inside2, afterPrune, v
 		}
